@@ -1402,6 +1402,24 @@ pub fn string_family() -> Vec<Prog> {
     text.push_str("    Process.println(Main.b(built == built))\n  }\n}\n");
     out.push(Prog { family: "string", shape: format!("runtime-built:{label}"), name: format!("string runtime-built {label}"), text });
   }
+  // equality matrix over run-time strings of length 0, 1, 2 (built, so that nothing is folded): every
+  // ordered pair under == and !=, as values and as conditions
+  {
+    let vals = ["\"\"", "\"a\"", "\"ab\"", "\"b\"", "\"a\" :: \"\"", "\"\" :: \"\"", "\"a\" :: \"b\""];
+    let mut text = String::from("class Main {\n  function b(v: bool): Str = if v { \"T\" } else { \"F\" }\n  function mk(s: Str, k: int): Str = if k <= 0 { s } else { Main.mk(s, k - 1) }\n  function eq(x: Str, y: Str): bool = x == y\n  function ne(x: Str, y: Str): bool = x != y\n  function pick(x: Str, y: Str): Str = if x == y { \"same\" } else if y != x { \"different\" } else { \"impossible\" }\n  function main(): unit = {\n    let k = \"1\".toInt();\n");
+    for (i, v) in vals.iter().enumerate() {
+      text.push_str(&format!("    let s{i} = Main.mk({v}, k);\n"));
+    }
+    for i in 0..vals.len() {
+      let mut line = vec![];
+      for j in 0..vals.len() {
+        line.push(format!("Main.b(s{i} == s{j}) :: Main.b(s{j} != s{i}) :: Main.b(Main.eq(s{i}, s{j})) :: Main.b(Main.ne(s{i}, s{j})) :: Main.pick(s{i}, s{j})"));
+      }
+      text.push_str(&format!("    Process.println({});\n", line.join(" :: \" \" :: ")));
+    }
+    text.push_str("  }\n}\n");
+    out.push(Prog { family: "string", shape: "equality-matrix".to_string(), name: "string equality matrix".to_string(), text });
+  }
   // size ladder: strings far longer than any buffer a runtime might reuse (powers of two, their
   // neighbours, a jump of more than 2x between consecutive prints), ASCII and multi-byte
   for (label, seed, extra) in [("ascii", "ab", "x"), ("two-byte", "\u{e9}", "\u{e9}"), ("four-byte", "\u{1f600}z", "!")] {
